@@ -458,7 +458,7 @@ fn mutate(rng: &mut Rng, body: &mut Vec<u8>) {
 fn gen_form(rng: &mut Rng, small: bool) -> Form {
     let boundary = gen_boundary(rng, small);
     let malformed = rng.chance(1, 4);
-    let defect = if malformed { rng.below(16) } else { 99 };
+    let defect = if malformed { rng.below(17) } else { 99 };
     let mut valid = !malformed;
     let mut body: Vec<u8> = Vec::new();
     let mut dash = b"--".to_vec();
@@ -524,6 +524,15 @@ fn gen_form(rng: &mut Rng, small: bool) -> Form {
             body.extend_from_slice(eol);
         }
         body.extend_from_slice(eol);
+        if defect == 16 {
+            // a part that ends with its header block (RFC 2046 allows it): the delimiter follows the blank line directly,
+            // there is no value and no line break in front of the delimiter
+            body.extend_from_slice(&dash);
+            if let Some(fs) = fields {
+                fs.push((name, Vec::new()));
+            }
+            return;
+        }
         body.extend_from_slice(&value);
         body.extend_from_slice(b"\r\n");
         body.extend_from_slice(&dash);
@@ -532,11 +541,11 @@ fn gen_form(rng: &mut Rng, small: bool) -> Form {
         }
     };
     for i in 0..nfields {
-        let d = if i == 0 && (2..=8).contains(&defect) { defect } else { 99 };
+        let d = if (i == 0 && (2..=8).contains(&defect)) || (defect == 16 && rng.chance(1, 2)) { defect } else { 99 };
         field(rng, &mut body, &mut valid, Some(&mut fields), d);
         body.extend_from_slice(b"\r\n");
     }
-    if nfields == 0 && (2..=8).contains(&defect) {
+    if nfields == 0 && ((2..=8).contains(&defect) || defect == 16) {
         valid = false; // the defect was not placed; the form may still be fine, but do not claim it
     }
 
